@@ -83,6 +83,11 @@ register('C08', 'Hypothesis (domain, history, boundary leaf, initial datum) agai
          'linform_vector serial/pool/successive calls == element-wise values.',
          'vlib/heatext.py closed forms (self-tested); two-resolution guard on the element integral', 'DESIGN.md 3/C08')
 
+register('C17', 'Hypothesis-generated call histories against one cache directory with file-damage injection; bitwise comparison with single-pair evaluation',
+         'Every assemble / linform_vector call of a generated history (inline, serial, pool with 1..16 workers, cache hit, recomputation after delete / empty / header / half / '
+         'one-byte-short / garbage damage, fresh operator objects, colliding-repr lists of two curves, equal-size lists) returns the single-pair array bit for bit and leaves a loadable file.',
+         'OS scheduling of the workers is not controlled; worker count, chunking and history are', 'DESIGN.md 3/C17')
+
 NOT_YET = {}
 def main():
     props = [json.loads(l)['id'] for l in open(os.path.join(V, 'properties.jsonl'))]
